@@ -694,7 +694,7 @@ class Collection(object):
             else:
                 original_document_snapshot = copy.deepcopy(existing_document)
                 updated_existing = True
-                snapshot_key = original_document_snapshot['_id']
+                snapshot_key = original_document_snapshot.get('_id')
                 if isinstance(snapshot_key, dict):
                     snapshot_key = helpers.hashdict(snapshot_key)
                 rollback[:] = [(snapshot_key, original_document_snapshot)]
@@ -922,9 +922,10 @@ class Collection(object):
                 first = False
             # if empty document comes
             if not document:
+                has_id = '_id' in spec or '_id' in existing_document
                 _id = spec.get('_id', existing_document.get('_id'))
                 existing_document.clear()
-                if _id:
+                if has_id:
                     existing_document['_id'] = _id
 
             if was_insert:
@@ -934,7 +935,8 @@ class Collection(object):
                 # Document has been modified in-place.
 
                 # Make sure the ID was not change.
-                if original_document_snapshot.get('_id') != existing_document.get('_id'):
+                if ('_id' in original_document_snapshot) != ('_id' in existing_document) or \
+                        original_document_snapshot.get('_id') != existing_document.get('_id'):
                     raise WriteError(
                         "After applying the update, the (immutable) field '_id' was found to have "
                         'been altered to _id: {}'.format(existing_document.get('_id')))
